@@ -18,8 +18,35 @@ TInit == /\ MInit /\ doc = <<>> /\ nextId = 1000 /\ hist = <<>> /\ estage = "pic
 TPick == /\ estage = "pick" /\ tid = 0 /\ \E k \in 1..Len(Traces) : ResetRun(Traces[k].i, 0, {}) /\ tid' = k
          /\ estage' = "parse" /\ UNCHANGED <<doc, nextId, hist, l, bad>>
 Ev == Traces[tid].h[l]
-SameOp(a, b) == /\ a.k = b.k /\ a.path = b.path /\ a.ppath = b.ppath /\ a.i = b.i /\ a.nm = b.nm /\ a.s = b.s /\ a.ms = b.ms
-Matching == /\ Edit /\ SameOp(LastOp, Ev.op)
+(* resolve the recorded paths to identities of the model's tree: IdAt(<<>>) = the root (-1); 0-2 = no such node *)
+RECURSIVE IdAtSeq(_, _)
+IdAtSeq(items, path) ==
+  IF path = <<>> THEN 0-2
+  ELSE LET st == path[1] IN
+       IF st[3] < 1 \/ st[3] > Len(items) THEN 0-2
+       ELSE LET x == items[st[3]] IN
+            IF Len(path) = 1 THEN x.pos
+            ELSE IF x.k = "text" THEN 0-2
+            ELSE LET nxt == path[2] IN
+                 IF nxt[1] = 0 THEN IdAtSeq(x.body, Tail(path))
+                 ELSE IF nxt[2] < 1 \/ nxt[2] > Len(x.args) \/ x.args[nxt[2]].k = "text" THEN 0-2
+                 ELSE IdAtSeq(x.args[nxt[2]].body, Tail(path))
+(* the first step of a path is always a body step of the root *)
+IdAt(path) == IF path = <<>> THEN 0-1 ELSE IdAtSeq(doc, path)
+(* the recorded edit, as the model's parametrised step (with its enabling condition) *)
+Take(op) ==
+  LET id == IdAt(op.path)
+      pid == IdAt(op.ppath) IN
+  CASE op.k = "delete" -> id \in TargetIds /\ DeleteS(id)
+    [] op.k = "replace_with" -> id \in TargetIds /\ op.ms \in Material /\ ReplaceWithS(id, op.ms)
+    [] op.k = "replace" -> pid \in ReplaceHosts /\ id \in ChildrenOfP(pid) /\ op.ms \in Material /\ ReplaceS(pid, id, op.ms)
+    [] op.k = "remove" -> pid \in ParentIds /\ id \in BodyChildren(pid) /\ RemoveS(pid, id)
+    [] op.k = "insert" -> pid \in ParentIds /\ op.ms \in Material /\ InsertIdxOK(pid, op.i, op.ms) /\ InsertS(pid, op.i, op.ms)
+    [] op.k = "append" -> pid \in ParentIds /\ op.ms \in Material /\ AppendS(pid, op.ms)
+    [] op.k = "rename" -> RenameOK(id) /\ op.nm \in NewNames /\ RenameS(id, op.nm)
+    [] op.k = "set_string" -> SetStringOK(id) /\ op.s \in NewStrings /\ SetStringS(id, op.s)
+    [] OTHER -> id \in NodeTargetIds /\ op.k \in ArgsOps /\ ArgsOK(op.k, id, op.i, op.s) /\ ArgsS(op.k, id, op.i, op.s)
+Matching == estage = "edit" /\ Take(Ev.op)
 (* one trace step: the model takes the recorded edit; the verdict records the first mismatching observable *)
 TStep == /\ estage = "edit" /\ bad = "ok" /\ l <= Len(Traces[tid].h)
          /\ IF ENABLED Matching
